@@ -638,7 +638,9 @@ fn fam_recover(r: &mut Rng) -> Result<(), String> {
     let (ADMIN, USER, USER2, ORACLE, STAKER, COLLECTOR, NATIVE_USER) = (a.admin.as_str(), a.user.as_str(), a.user2.as_str(), a.oracle.as_str(), a.staker.as_str(), a.collector.as_str(), a.native_user.as_str());
     let mut deps = init(&s);
     let lst = CONFIG.load(&deps.storage).unwrap().liquid_stake_token_denom;
-    let n = 1 + r.next() % 14;
+    // sometimes many packets towards one receiver, so that a paginated recovery has more than one page
+    let many = r.next() % 5 == 0;
+    let n = if many { 11 + r.next() % 16 } else { 1 + r.next() % 14 };
     let mixed = r.next() % 4 == 0;
     let mut all: Vec<IBCTransfer> = vec![];
     for i in 0..n {
@@ -647,8 +649,8 @@ fn fam_recover(r: &mut Rng) -> Result<(), String> {
         let p = IBCTransfer {
             sequence: id,
             amount: Coin::new(r.amount().min(10u128.pow(20)), if mixed && r.next() % 3 == 0 { lst.clone() } else { IBC_DENOM.to_string() }),
-            receiver: r.pick(&[STAKER, NATIVE_USER]).to_string(),
-            status: [PS::Sent, PS::AckFailure, PS::TimedOut, PS::AckFailure][(r.next() % 4) as usize].clone(),
+            receiver: if many && r.next() % 8 != 0 { STAKER.to_string() } else { r.pick(&[STAKER, NATIVE_USER]).to_string() },
+            status: if many && r.next() % 8 != 0 { PS::TimedOut } else { [PS::Sent, PS::AckFailure, PS::TimedOut, PS::AckFailure][(r.next() % 4) as usize].clone() },
         };
         INFLIGHT_PACKETS.save(&mut deps.storage, id, &p).unwrap();
         all.push(p);
@@ -934,7 +936,7 @@ const TAGS: &[(&str, &str)] = &[
     ("surrounding blanks", "C14,C19"),
     ("upper-case prefix", "C14"),
     ("UpdateConfig", "C14"),
-    ("recovery accepted although", "C07,C01,C02"),
+    ("recovery accepted although", "C07,C01,C02,C03"),
     ("not tracked for a reply", "C07,C01"),
     ("reply", "C07,C01,C02"),
     ("acknowledgement", "C07,C01,C02"),
